@@ -264,12 +264,12 @@ pub fn run(cfg: &Cfg) -> i32 {
             continue; // no source construct emits JumpIf
         }
         if !t.opcodes.contains(o) {
-            machinery_error(&format!("vacuous: opcode {} never stepped", o));
+            vacuous(&format!("vacuous: opcode {} never stepped", o));
         }
     }
     for r in ["SetIp", "PushData", "PopData", "SwapData", "RotData", "OverData", "PopReturn", "PushReturn", "PopLoop", "PushLoop", "LoopNextBack", "PopSpecial", "PushSpecial", "SwapRef"] {
         if !t.rsteps.contains(r) {
-            machinery_error(&format!("vacuous: reverse step kind {} never logged", r));
+            vacuous(&format!("vacuous: reverse step kind {} never logged", r));
         }
     }
     ev.evaluations = nprog.load(Ordering::Relaxed);
